@@ -117,18 +117,16 @@ def r16a(ctx: Context) -> None:
     # option strings the API emits
     emitted = 0
     for func in api.methods.values():
-        for node in walk_local(func.node):
-            if isinstance(node, ast.Call) and isinstance(node.func, ast.Attribute) and node.func.attr in ("append", "extend"):
-                for arg in node.args:
-                    elements = list(arg.elts) if isinstance(arg, (ast.Tuple, ast.List)) else [arg]
-                    for element in elements:
-                        if isinstance(element, ast.Constant) and isinstance(element.value, str) and element.value.startswith("-"):
-                            emitted += 1
-                            key = f"{func.short}: option {element.value}"
-                            if element.value in options:
-                                rule.ok(key, "registered")
-                            else:
-                                rule.fail(key, where(func, node), f"the API puts '{element.value}' on the command line but no add_argument registers it: the API call fails (or means something else) where the command line works")
+        docstrings = {id(s.value) for s in ast.walk(func.node) if isinstance(s, ast.Expr) and isinstance(s.value, ast.Constant)}
+        for element in walk_local(func.node):
+            # any option-looking string literal of the API class (appended directly, or kept in a table that is appended later)
+            if isinstance(element, ast.Constant) and isinstance(element.value, str) and re.fullmatch(r"--?[a-z][a-z-]*", element.value) and id(element) not in docstrings:
+                emitted += 1
+                key = f"{func.short}: option {element.value}"
+                if element.value in options:
+                    rule.ok(key, "registered")
+                else:
+                    rule.fail(key, where(func, element), f"the API puts '{element.value}' on the command line but no add_argument registers it: the API call fails (or means something else) where the command line works")
     if emitted < 8:
         raise AnalysisError(f"only {emitted} option strings found in the API")
     # each option is emitted under a condition on its own setting: one setting must not switch another off
@@ -288,13 +286,31 @@ def api_results_from_presentation(ctx: Context, rule_id: str = "R16g") -> None:
     prog = ctx.prog
     rule = ctx.rule(rule_id, "API results are built from what the run printed, never from the exit code", 3)
     api = prog.cls(API)
+    presentation = prog.cls(API_PRES)
+
+    def captured_by(printer: str) -> List[str]:
+        """fields of the API presentation that the given printing method appends to"""
+        method = presentation.methods.get(printer)
+        if method is None or not method.params:
+            rule.fail(f"{presentation.name}.{printer}", where(presentation.methods.get("__init__") or next(iter(presentation.methods.values()))), f"the API presentation no longer overrides {printer}: what the run reports there is printed instead of being returned to the API caller")
+            return ["<not captured>"]
+        me = method.params[0]
+        fields = [
+            n.func.value.attr for n in walk_local(method.node)
+            if isinstance(n, ast.Call) and isinstance(n.func, ast.Attribute) and n.func.attr in ("append", "extend") and isinstance(n.func.value, ast.Attribute)
+            and isinstance(n.func.value.value, ast.Name) and n.func.value.value.id == me
+        ]
+        if not fields:
+            raise AnalysisError(f"{method.short} no longer records what it is asked to print")
+        return fields
+
     wanted = {
-        "PyMarkdownScanPathResult": ["scan_failures", "pragma_errors"],
-        "PyMarkdownFixResult": ["files_fixed"],
-        "PyMarkdownListPathResult": ["pso"],
+        "PyMarkdownScanPathResult": captured_by("print_scan_failure") + captured_by("print_pragma_failure"),
+        "PyMarkdownFixResult": captured_by("print_fix_message"),
+        "PyMarkdownListPathResult": captured_by("print_system_output"),
     }
     seen = 0
-    for func in api.methods.values():
+    for func in list(api.methods.values()) + list(presentation.methods.values()):
         for node in walk_local(func.node):
             if not isinstance(node, ast.Call):
                 continue
